@@ -480,7 +480,25 @@ struct Run<'a, 'b> {
 
 impl<'a, 'b> Run<'a, 'b> {
     fn viol(&mut self, oi: usize, rule: &str, sig: &str, detail: String) {
-        let v = Violation::new(PROP, rule, sig, format!("{detail}; lanes={:?} remotes={} cap={} ops={}", self.seq.lanes, self.seq.remotes, self.seq.cap, self.seq.ops.join(" ")));
+        let text = format!("{detail}; lanes={:?} remotes={} cap={} ops={}", self.seq.lanes, self.seq.remotes, self.seq.cap, self.seq.ops.join(" "));
+        // What the queue delivers (or strands, duplicates, fabricates) for a lane of a given kind is also the subject
+        // of the property about that kind of lane: value lanes C01, map lanes C02, supply lanes C14.
+        if matches!(rule, "C04.uplinks.stuck" | "C04.uplinks.frames" | "C04.uplinks.spurious_task" | "C04.uplinks.action" | "C04.uplinks.empty_event") {
+            let other = if sig.ends_with("value") {
+                Some("C01")
+            } else if sig.ends_with("map") {
+                Some("C02")
+            } else if sig.ends_with("supply") {
+                Some("C14")
+            } else {
+                None
+            };
+            if let Some(prop) = other {
+                let r = rule.replacen("C04.", &format!("{prop}."), 1);
+                self.ctx.violate(oi, Violation::new(prop, &r, sig, text.clone()));
+            }
+        }
+        let v = Violation::new(PROP, rule, sig, text);
         self.ctx.violate(oi, v);
     }
 
